@@ -24,10 +24,11 @@ structure Fixes where
   f2b : Bool  -- user lexicon ids are verified before translating through the stored mapper
   f8 : Bool := true    -- lex.csv end-of-file handling
   f10 : Bool := true   -- rewrite trie reuses only a node's last edge
+  f14 : Bool := true   -- connector padding lanes use the invalid id; < 8 / 0 templates handled
   deriving Repr, DecidableEq, Inhabited
 
-def Fixes.all : Fixes := ⟨true, true, true, true, true, true, true, true⟩
-def Fixes.pinned : Fixes := ⟨false, false, false, false, false, false, false, false⟩
+def Fixes.all : Fixes := ⟨true, true, true, true, true, true, true, true, true⟩
+def Fixes.pinned : Fixes := ⟨false, false, false, false, false, false, false, false, false⟩
 
 structure UnkEntryM where
   cateId : Nat
